@@ -653,7 +653,7 @@ func (r *rig) query(qi int, mid func()) string {
 	if resp.GetAllowed() {
 		ans = "T"
 	}
-	if hit == "m" && r.cfg.jitter > 0 && r.cfg.mode == "fake" {
+	if hit == "m" && mid == nil && r.cfg.jitter > 0 && r.cfg.mode == "fake" {
 		// redraw the jittered lifetime until it is at least half of its range (it is reported and fed to the model)
 		for tries := 0; tries < 40; tries++ {
 			r.cache.mu.Lock()
